@@ -113,6 +113,11 @@ class RecFileSys(FileCollector):
         self.world.on_execute(self)
 
 
+class SID(str):
+    """A system id type that is a str subclass (e.g. a str-valued Enum member in user code)."""
+    __slots__ = ()
+
+
 class LenRec(Rec):
     """A falsy system: what a System subclass that defines __len__ (over its own records, say) is while it holds nothing.
     Presence in the scheduler must never be decided by an object's truth value."""
